@@ -116,6 +116,10 @@ Fixpoint ndel {A} (l : list (nat * A)) (k : nat) : list (nat * A) :=
   | (k', v) :: r => if Nat.eqb k k' then r else (k', v) :: ndel r k
   end.
 
+(** no request id twice (the Go snapshot is built from a map keyed by request) *)
+Fixpoint nodup_ids (l : list nat) : bool :=
+  match l with [] => true | x :: r => negb (nmem x r) && nodup_ids r end.
+
 Definition goid (a : actor) : nat := match a with AGo g => g | ACmd c => c | AReq r => r | AEnv => 0 end.
 
 (** Locked transition of HealthCheckCompleted. *)
@@ -220,6 +224,7 @@ Definition step (st0 : state) (e : event) : option state :=
         | Some _ => None
         | None =>
           if Nat.eqb (length rs) (length (t_inflight x)) && forallb (fun r => nmem r (t_inflight x)) (map fst rs)
+             && nodup_ids (map fst rs)
              (* the "hijacked" flag is exactly: the target answered 101 and the connection was taken over *)
              && forallb (fun rh => Bool.eqb (snd rh) (match phase_of st (fst rh) with
                                                       | Some (PReplied _ s101) => s101 =? 101 | _ => false end)) rs
